@@ -49,15 +49,25 @@ def _infer_result_dtype(
     if dtype_param is not None:
         return cast(np.dtype[Any], np.dtype(dtype_param))
 
-    cand: list[np.dtype[Any]] = []
-    for aval in (start_aval, stop_aval):
-        aval_dtype = getattr(aval, "dtype", None)
-        if aval_dtype is not None:
-            cand.append(np.dtype(aval_dtype))
+    cand = [
+        aval
+        for aval in (start_aval, stop_aval)
+        if getattr(aval, "dtype", None) is not None
+    ]
     if cand:
-        result = cand[0]
-        for dt in cand[1:]:
-            result = np.promote_types(result, dt)
+        # JAX's own promotion (lattice, weakly typed Python scalars, current x64
+        # mode) -- numpy's would turn (int32, float32) into float64.
+        specs = [
+            jax.ShapeDtypeStruct(
+                (), np.dtype(a.dtype), weak_type=bool(getattr(a, "weak_type", False))
+            )
+            for a in cand
+        ]
+        result = np.dtype(
+            jax.eval_shape(
+                lambda *xs: jax.lax.full((), 0, jnp.result_type(*xs)), *specs
+            ).dtype
+        )
     else:
         result = np.dtype(np.float64 if enable_double else np.float32)
 
